@@ -12,7 +12,8 @@ Traces == Batch.traces
 Events == Traces[tid].events
 IsKnownToken(tok) == TRUE
 Init == /\ tid \in DOMAIN Traces /\ l = 1 /\ i = 1 /\ acc = EmptyParse
-        /\ sp = Spliced(Traces[tid].argv, [n \in {Traces[tid].cfgname} |-> Traces[tid].config])
+        /\ sp = Spliced(Traces[tid].argv, [n \in {Traces[tid].cfgname, Traces[tid].cfgname2} |->
+                                              IF n = Traces[tid].cfgname THEN Traces[tid].config ELSE Traces[tid].config2])
 \* the first event carries the spliced argument list: config tokens at the end, in file order
 TraceSpliced == /\ l <= Len(Events) /\ Events[l].ev = "CliSpliced" /\ l = 1
                 /\ Events[l].argv = sp
